@@ -2,7 +2,8 @@
 From Coq Require Import ZArith List Bool.
 Import ListNotations.
 Require Import GV.Gen.Consts GV.Model.Outcome GV.Model.J1939 GV.Model.Governor GV.Model.Hcu GV.Model.Object
-  GV.Model.HcuUnit GV.Model.Units GV.Model.Volvo GV.Model.Authority GV.Proofs.C10_proof.
+  GV.Model.HcuUnit GV.Model.Units GV.Model.Volvo GV.Model.Authority GV.Proofs.C10_proof
+  GV.Model.CanNet GV.Model.Auth_io GV.Spec.C10_spec GV.Proofs.C10_whole.
 Local Open Scope Z_scope.
 
 (* Healthy is published only if at least one message has been accepted and the last one is
@@ -55,3 +56,26 @@ Theorem C10_receive_bookkeeping : forall its now f,
     its (fst (scan_items its now f)).
 Proof. exact scan_marks. Qed.
 Print Assumptions C10_receive_bookkeeping.
+
+(* ---- whole histories: the authority model and an independent reference bookkeeping (heard /
+   time of the last accepted message / previously published status per unit, Spec/C10_spec.v) are
+   stepped side by side over ANY history of received frames, cycles, commands, non-negative waits,
+   setup and teardown, from ANY driver configuration: in every cycle, for every unit, the decided
+   status satisfies the C10 cycle predicate (truthful; published exactly on change or on every
+   tenth cycle; silent before the first message) ---- *)
+Theorem C10_whole_history : forall addr nm cs evs,
+  forallb (fun e => match e with AWait ms => 0 <=? ms | _ => true end) evs = true ->
+  walk_model (auth_new 0 addr nm cs) (filter_map (uref_of addr) cs) 0 evs = true.
+Proof. exact c10_whole_history_from_start. Qed.
+Check C10_whole_history : forall addr nm cs evs,
+  forallb (fun e => match e with AWait ms => 0 <=? ms | _ => true end) evs = true ->
+  walk_model (auth_new 0 addr nm cs) (filter_map (uref_of addr) cs) 0 evs = true.
+Print Assumptions C10_whole_history.
+(* and what is judged there is what the model publishes *)
+Theorem C10_cycle_publishes_decisions : forall a now,
+  to_status (auth_on_tick a now)
+  = flat_map (fun it => match snd (item_status it (a_tick a) now) with
+                        | Some s => [(i_cfg (fst (item_status it (a_tick a) now)), i_kind (fst (item_status it (a_tick a) now)), s)]
+                        | None => [] end) (a_items a).
+Proof. exact tick_publishes. Qed.
+Print Assumptions C10_cycle_publishes_decisions.
